@@ -196,7 +196,8 @@ type Runtime struct {
 	vm   *vm
 	hash *maphash.Hash
 
-	jobQueue []func()
+	jobQueue     []func()
+	drainingJobs bool
 
 	promiseRejectionTracker PromiseRejectionTracker
 	asyncContextTracker     AsyncContextTracker
@@ -2857,6 +2858,16 @@ func (r *Runtime) getHash() *maphash.Hash {
 
 // called when the top level function returns normally (i.e. control is passed outside the Runtime).
 func (r *Runtime) leave() {
+	if r.drainingJobs {
+		// A job (e.g. a Go function used as a reaction handler) has re-entered the runtime through a
+		// top-level call; the jobs it has enqueued are run by the drain loop that is already active,
+		// in FIFO order.
+		return
+	}
+	r.drainingJobs = true
+	defer func() {
+		r.drainingJobs = false
+	}()
 	var jobs []func()
 	for len(r.jobQueue) > 0 {
 		jobs, r.jobQueue = r.jobQueue, jobs[:0]
